@@ -113,3 +113,47 @@ def run(chk):
     if after in inside:
       chk.violation(key + ':count-update-discarded', f'the first key drawn after nnx.{tr} is a key that was handed out inside it (the count increment '
                                                      f'made inside the body is dropped: count after = {int(rngs.default.count.value)})', {})
+  # ---- a block of split streams left by an exception: the streams are restored all the same (the next draw continues the unsplit stream)
+  for form in ('with', 'decorator'):
+    key = f'C09:nnx:split_rngs-left-by-exception:{form}'
+    chk.count(key)
+    try:
+      r1, r2 = nnx.Rngs(0, dropout=1), nnx.Rngs(0, dropout=1)
+      first = (kdata(r1.dropout()), kdata(r2.dropout()))
+      try:
+        if form == 'with':
+          with nnx.split_rngs(r1, splits=3, only='dropout'):
+            raise KeyError('user code failed inside the block')
+        else:
+          @nnx.split_rngs(splits=3, only='dropout')
+          def failing(r):
+            raise KeyError('user code failed inside the function')
+          failing(r1)
+      except KeyError:
+        pass
+      with nnx.split_rngs(r2, splits=3, only='dropout'):      # the twin leaves the same block normally
+        pass
+      got = [kdata(r1.dropout()), kdata(r1.dropout())]
+      want = [kdata(r2.dropout()), kdata(r2.dropout())]
+      shape_ok = _np.shape(r1.dropout.key.value) == _np.shape(r2.dropout.key.value)
+      if got != want or not shape_ok or first[0] != first[1]:
+        chk.violation(key, f'after an exception escaped the split block the stream does not continue where it was: keys {got}, a twin that left the block normally {want} '
+                           f'(key shape {_np.shape(r1.dropout.key.value)})', {})
+    except Exception as e:
+      chk.violation(key, f'raised {type(e).__name__}: {str(e)[:160]}', {})
+  # ---- the separator switch is scoped: leaving a nested temp_flip_flag block restores the value that held on entry
+  from flax import configurations as _cfgs
+  import flax as _flax
+  chk.count('C09:temp_flip_flag:nested')
+  seen = []
+  with _cfgs.temp_flip_flag('fix_rng_separator', True):
+    with _cfgs.temp_flip_flag('fix_rng_separator', True):
+      seen.append(_flax.config.flax_fix_rng_separator)
+    seen.append(_flax.config.flax_fix_rng_separator)
+    with _cfgs.temp_flip_flag('fix_rng_separator', False):
+      seen.append(_flax.config.flax_fix_rng_separator)
+    seen.append(_flax.config.flax_fix_rng_separator)
+  seen.append(_flax.config.flax_fix_rng_separator)
+  if seen != [True, True, False, True, False]:
+    chk.violation('C09:temp_flip_flag:nested', f'flag values inside / after nested temp_flip_flag blocks {seen}, expected [True, True, False, True, False] '
+                                               '(with the separator fix requested, paths (ab, c) and (a, bc) must not share a key)', {})
